@@ -288,70 +288,120 @@ STRINGS = [
 ]
 
 
-def _str_safe(seq, n):
-    """op sequences that stay outside the two known string-iterator findings (no read past the end, no clone
-    after the start) while the spec cursor is in step; n = None: the spec makes no statement, all are safe"""
-    if n is None:
-        return True
-    pos, read, sync = 0, False, True
-    for i, o in enumerate(seq):
-        if not sync:
-            # the final reset of every slot brings the cursor back in step: a clone made out of step is not faithful
-            return "c" not in seq[i:]
-        if o == "r":
-            if pos >= n:
-                return False
-            read = True
-        elif o == "a":
-            if pos < n and not read:
-                sync = False
-            elif pos < n:
-                pos += 1
-            read = False
-        elif o == "z":
-            pos, read = 0, False
-        elif o == "c":
-            if pos != 0 or read:
-                return False
-            continue
-        elif o == "w":
-            if pos >= n:
-                return False
-            pos = min(n, pos + 3)
-            read = False
-    return True
-
-
 def _strings(top):
     out = []
     for si, (text, sep, n) in enumerate(STRINGS):
         create = "it string %s %s" % ("null" if text is None else H(text), "null" if sep is None else H(sep))
         for k in range(0, top + 1):
             for seq in itertools.product("razcw", repeat=k):
-                if not _str_safe(seq, n):
-                    continue
                 lines, ns = _opseq_lines(seq, True)
-                fin = []
-                for j in range(ns):
-                    fin += ["it use %d" % j, "it reset", "it walk 6"]
-                out.append(("str:%d:%s" % (si, "".join(seq)), ["it begin", create] + lines + fin))
-    # the two known findings, one script each per kind of text
-    for si, (text, sep, n) in enumerate(STRINGS[:2]):
-        create = "it string %s %s" % (H(text), "null")
-        out.append(("strpast:%d" % si, ["it begin", create, "it walk 6", "it xvalue"]))
-        out.append(("strclone:%d" % si, ["it begin", create, "it xvalue", "it clone", "it use 1", "it walk 3"]))
-        out.append(("strclone2:%d" % si, ["it begin", create, "it walk 1", "it clone", "it use 1", "it reset", "it walk 5"]))
+                out.append(("str:%d:%s" % (si, "".join(seq)), ["it begin", create] + lines + _finish(ns, True)))
+    return out
+
+
+BUFFERS = ["636d640061006262 00", "610062", "", None, "0000", "00", "61", "6100", "61 00 00 62 00", "78797a00 31 00 32 2e35 00 2d33"]
+
+
+def _bufops(seq, nslot0=1):
+    lines, nslot = [], nslot0
+    for o in seq:
+        if o == "r":
+            lines.append("it svalue")
+        elif o == "a":
+            lines.append("it advance")
+        elif o == "z":
+            lines.append("it reset")
+        elif o == "c":
+            lines += ["it clone", "it use %d" % nslot]
+            nslot += 1
+        elif o == "w":
+            lines.append("it swalk 2")
+        elif o == "x":
+            lines.append("it xvalue")
+        elif o == "k":
+            lines.append("it consume skip")
+        elif o == "d":
+            lines.append("it consume d")
+    return lines, nslot
+
+
+def _buffers(top):
+    out = []
+    for bi, data in enumerate(BUFFERS):
+        hx = "null" if data is None else (data.replace(" ", "") or "-")
+        for kind in ("buffer", "args"):
+            for k in range(0, top + 1):
+                for seq in itertools.product("razcw", repeat=k):
+                    lines, ns = _bufops(seq)
+                    fin = ["it svalue", "it swalk 9", "it advance", "it svalue"]
+                    for j in range(ns):
+                        fin += ["it use %d" % j, "it svalue", "it reset", "it swalk 9"]
+                    out.append(("buf:%s:%d:%s" % (kind, bi, "".join(seq)), ["it begin", "it %s %s" % (kind, hx)] + lines + fin))
+            out.append(("bufx:%s:%d" % (kind, bi), ["it begin", "it %s %s" % (kind, hx), "it xvalue", "it consume d", "it consume u",
+                                                    "it consume skip", "it svalue", "it walk 3", "it from lin", "it from fac"]))
+    return out
+
+
+ARGSRC = [
+    ("lin", ["4 0 1", "2,-1;2", "8 1 3 9", "4", "4 0", "x 0 1", "4 x 1", "0 0 1", "4294967295 0 1", "1 2.5 2.5", " 4 0 1", "4  0 1", ""]),
+    ("range", ["0 1 0.25", "0 1", "-2 2 0.5", "1 0 0.5", "1 1 1", "0 1 2", "0 1 0", "0 1 x", "0 3 1.25 7"]),
+    ("fac", ["3", "3 2", "3 2 0.5", "3 2 0.5 1", "0 2", "3 0", "3 -1", "3 2 0", "3 2 -1", "x", "3 x", "3 2 x", "3 2 0.5 x",
+             "4294967295 2", "5 1.5 2 0.25 9"]),
+]
+
+
+def _fromiter(top):
+    out = []
+    k = 0
+    for kind, texts in ARGSRC:
+        for text in texts:
+            src = "it string %s null" % H(text)
+            # the created generator gets slot 1 (when accepted); the source stays slot 0
+            for n in range(0, min(top, 2) + 1):
+                for seq in itertools.product("razcw", repeat=n):
+                    lines, ns = _opseq_lines(seq, True, start_slots=2)
+                    out.append(("from:%d:%s" % (k, "".join(seq)),
+                                ["it begin", src, "it from " + kind, "it use 1"] + lines + _finish(ns, True)
+                                + ["it use 0", "it xvalue", "it consume d", "it advance"]))
+            k += 1
+    # generators, buffers and partly consumed texts as argument sources
+    for kind in ("lin", "range", "fac"):
+        out.append(("fromgen:%s" % kind, ["it begin", "it create " + H("4 0 1 0.25 7"), "it from " + kind, "it use 1", "it walk 9", "it use 0", "it walk 9"]))
+        out.append(("fromlin:%s" % kind, ["it begin", "it create " + H("lin(4 : 0 1)"), "it from " + kind, "it use 1", "it walk 9", "it use 0", "it walk 9"]))
+        out.append(("frompart:%s" % kind, ["it begin", "it string %s null" % H("9 4 0 1 0.5 2"), "it consume d", "it from " + kind, "it use 1", "it walk 9",
+                                           "it use 0", "it consume d", "it consume d", "it consume d"]))
+    return out
+
+
+def _consume():
+    out = []
+    srcs = [("it create " + H("1 2 3"), True), ("it create " + H("1 x 3"), True), ("it create " + H("lin(2 : 0 1)"), True),
+            ("it create " + H("fac(0:2)"), True), ("it profile 3 " + H("poly 1 0"), True), ("it string %s null" % H("1 2 3"), True),
+            ("it string %s null" % H("7 x 8"), True), ("it string %s null" % H("0.5"), True), ("it string %s null" % H("4 "), True),
+            ("it string %s null" % H("4   "), True), ("it string %s null" % H("  "), True), ("it string - null", True),
+            ("it create " + H("-nan 1"), True), ("it create " + H("1 -nan 2"), True), ("it create " + H("+nan"), True),
+            ("it create " + H("1 nan(x) 2"), True), ("it create " + H(" nan"), True)]
+    for si, (src, _e) in enumerate(srcs):
+        for n in range(0, 4):
+            for seq in itertools.product("dukr", repeat=n):
+                lines = []
+                for o in seq:
+                    lines.append({"d": "it consume d", "u": "it consume u", "k": "it consume skip", "r": "it xvalue"}[o])
+                out.append(("cons:%d:%s" % (si, "".join(seq)), ["it begin", src] + lines + ["it xvalue", "it advance", "it text", "it reset", "it walk 4"]))
     return out
 
 
 def scripts(tier, seed, scale=1):
     top = 3 if tier == "quick" else 4
-    return _exhaustive(top) + _strings(top) + _boundary() + _random(tier, seed, scale)
+    return (_exhaustive(top) + _strings(top) + _buffers(top) + _fromiter(top) + _consume() + _boundary()
+            + _random(tier, seed, scale))
 
 
 def nontrivial(script, c_lines):
     for ln in c_lines:
         if ln.startswith("R more") or ln.startswith("R refused |"):
+            return True
+        if ln.startswith("R str ") or ln.startswith("R ok val="):
             return True
         if ln.startswith("R vals="):
             i = ln.find(" n=")
